@@ -4,7 +4,7 @@
 #    passes without; 2. applies the patch to /repo, runs the check (evidence redirected), undoes it;
 # 3. records everything under /verif/seeded/<id>-<seed>/ (patch.diff, demo.rs, meta.txt, meta.json)
 id=$1; sd=$2; tier=${3:-quick}; chk=${4:-$id}
-name=$(basename $sd)
+name=${5:-$(basename $sd)}
 wt=/tmp/seedcheck-$$
 git -C /repo worktree add -q $wt HEAD || exit 2
 cd $wt
